@@ -8,6 +8,8 @@ identical to the model's), and evaluates the property's own oracle (`Spec.gstep`
 IMPLEMENTATION's dumps, `Agree` preservation, and a direct global exactly-once ledger) to find a concrete
 failing history when a tie breaks.
 """
+import time
+
 from common import *
 
 FAMILY = "grp"
@@ -233,6 +235,7 @@ class Runner:
         self.rep = rep
         # handlers=True: the same protocol answered through the real RESP handlers (handle_xgroup, handle_xreadgroup,
         # handle_xack, handle_xclaim, handle_xautoclaim, handle_xpending, handle_xadd, handle_xdel) on a StorageEngine
+        self.handlers = handlers
         self.impl = impl_driver_mode(handlers)
         self.model = lean_driver(FAMILY)
         self.quirks = quirks
@@ -260,13 +263,24 @@ class Runner:
         self.prev = parse_answer(a)
         self.ledger = {}      # g -> {"floor": id, "causes": set()}   (global exactly-once bookkeeping)
 
-    def step(self, op):
-        """Returns a dict: op, impl, code, verdict (judge answer or None), failures (list of (kind, detail))."""
+    def step(self, op, judge_op=None):
+        """Returns a dict: op, impl, code, verdict (judge answer or None), failures (list of (kind, detail)).
+        `judge_op`: the operation as the Spec oracle should see it (real-time layer: the idle token replaced by the
+        outcome the clock prescribes); "" = do not judge this step."""
         rep = self.rep
         a = self.impl.ask(op)
         b = self.ask_model(op)
         rep.evaluations += 1
         out = {"op": op, "impl": a, "code": b, "verdict": None, "oracle": []}
+        if op.startswith("pidle ") and a and b:
+            # reported idle times are compared through windows by the caller, never as text
+            ra, rb = a.split(" ;; ")[0], b.split(" ;; ")[0]
+            out["idle"] = (ra, rb)
+            if ra.isdigit() and rb.isdigit():
+                a = "idle" + a[len(ra):]
+                b = "idle" + b[len(rb):]
+                out["impl"], out["code"] = a, b
+            judge_op = ""
         if a is None:
             out["oracle"].append(("abort", "implementation process died: " + self.impl.stderr_tail[-300:]))
             self.impl.ask("reset")
@@ -281,10 +295,10 @@ class Runner:
         p_reply, p_stream, p_groups = self.prev
         w = op.split(" ")
         g = op_group(op)
-        if g is not None and not (reply == "nogroup" and g not in p_groups):
+        if g is not None and judge_op != "" and not (reply == "nogroup" and g not in p_groups):
             pre = p_groups[g].text if g in p_groups else "none"
             post = groups[g].text if g in groups else "none"
-            line = "judge %s ;; S %s ;; %s ;; %s ;; %s" % (op, sids(p_stream), pre, reply, post)
+            line = "judge %s ;; S %s ;; %s ;; %s ;; %s" % (judge_op or op, sids(p_stream), pre, reply, post)
             v = self.ask_model(line)
             rep.evaluations += 1
             out["verdict"] = v
@@ -328,6 +342,135 @@ class Runner:
     def run_history(self, ops):
         self.start()
         return [self.step(op) for op in ops]
+
+
+# ------------------------------------------------------------------ real-time layer: XCLAIM's idle threshold
+def timed_timeline(T):
+    """One timeline exercising a REAL min-idle threshold T (ms).  `sleep` is a pseudo-operation.  Two sleeps of T+150 ms."""
+    t = str(T)
+    return ["add 1-0", "add 2-0", "add 3-0", "create 1 0-0", "read 1 1 > - 0",
+            "claim 1 2 %s 0 1-0" % t,                    # freshly delivered: idle ~ 0 < T  -> refused
+            "sleep %d" % (T + 150),
+            "pidle 1 1-0",
+            "claim 1 2 %s 0 1-0" % t,                    # idle >= T -> moves to c2, last_delivery restarts
+            "pidle 1 1-0",                               # XPENDING's idle restarted (< T/2)
+            "claim 1 3 %s 0 1-0" % t,                    # immediately after c2's claim: must be REFUSED, owner stays c2
+            "claim 1 3 %s 1 2-0" % t,                    # FORCE bypasses the test (and restarts the idle time)
+            "claim 1 2 %s 0 2-0" % t,                    # ... so this one is refused
+            "claim 1 1 0 0 3-0",                         # min-idle 0 always passes (and restarts the idle time)
+            "claim 1 2 %s 0 3-0" % t,                    # ... refused
+            "add 4-0", "read 1 1 > - 0",
+            "claim 1 2 %s 0 4-0|1-0" % t,                # a fresh delivery and a fresh claim: both refused
+            "pending 1",
+            "sleep %d" % (T + 150),
+            "pidle 1 1-0",
+            "claim 1 3 %s 0 1-0" % t,                    # now the threshold has elapsed again
+            "claim 1 2 %s 0 2-0|3-0|4-0" % t,
+            "pidle 1 4-0",
+            "pending 1"]
+
+
+class Timed:
+    """Runs timelines on several runners in lockstep (they share the sleeps).  The runner's Lean driver is given the
+    check's own clock (`tnow`) before every operation, so `Code.claimT` decides with the same times; an outcome is
+    judged only when the clock leaves no doubt (interval of possible real idle times on one side of T with margin)."""
+
+    def __init__(self, runners, T):
+        self.runners, self.T = runners, T
+        self.t0 = time.monotonic()
+        self.last = [{} for _ in runners]          # per runner: id -> (clock before, clock after) of its last delivery/claim
+        self.indeterminate = 0
+
+    def now(self):
+        return int((time.monotonic() - self.t0) * 1000)
+
+    def run(self, ops):
+        for r in self.runners:
+            r.start()
+        steps = [[] for _ in self.runners]
+        alive = [True] * len(self.runners)
+        for op in ops:
+            if op.startswith("sleep "):
+                time.sleep(int(op.split(" ")[1]) / 1000.0)
+                continue
+            for k, r in enumerate(self.runners):
+                if alive[k]:
+                    st = self.one(k, r, op)
+                    if st is None:
+                        alive[k] = False          # scheduling noise: the rest of this timeline is not judged
+                        self.indeterminate += 1
+                    else:
+                        steps[k].append(st)
+        return steps
+
+    def one(self, k, r, op):
+        T, last = self.T, self.last[k]
+        w = op.split(" ")
+        p_reply, p_stream, p_groups = r.prev
+        b = self.now()
+        r.ask_model("tnow %d" % b)
+        if w[0] == "claim":
+            ids = parse_ids(w[5])
+            minidle = 2 ** 64 - 1 if w[3] == "huge" else int(w[3])
+            pend = set(p_groups[int(w[1])].pending_ids) if int(w[1]) in p_groups else set()
+            st = r.step(op, judge_op="")          # judged below, once the expectation is known
+            a = self.now()
+            want, doubt = [], False
+            for i in ids:
+                if i not in pend:
+                    continue
+                if w[4] == "1" or minidle == 0:
+                    ok = True
+                else:
+                    lo = b - last.get(i, (0, 0))[1]
+                    hi = a - last.get(i, (0, 0))[0]
+                    if lo >= minidle + 50:
+                        ok = True
+                    elif hi <= minidle // 2:
+                        ok = False
+                    else:
+                        doubt = True
+                        break
+                if ok:
+                    want.append(i)
+            if doubt:
+                return None
+            got = parse_ids(st["impl"].split(" ;; ")[0]) if st["impl"] and re.match(r"^(\.|\d+-\d+)", st["impl"]) else None
+            want_reply = [i for i in want if i in p_stream]
+            if got != want_reply:
+                st["oracle"].append(("idle", "XCLAIM min-idle %s at clock %d..%d ms claimed %s; by the last deliveries %s the eligible ids are %s"
+                                     % (w[3], b, a, sids(got or []), {sid(i): last.get(i) for i in ids}, sids(want_reply))))
+            # the Spec oracle (owner map, Agree preservation) with the outcome the clock prescribes
+            if len(want) in (0, len([i for i in ids if i in pend])):
+                tok = "0" if want else "huge"
+                jop = " ".join(w[:3] + [tok, "0"] + w[5:])
+                post = parse_answer(st["impl"])[2]
+                g = int(w[1])
+                line = "judge %s ;; S %s ;; %s ;; %s ;; %s" % (jop, sids(p_stream), p_groups[g].text if g in p_groups else "none",
+                                                            st["impl"].split(" ;; ")[0], post[g].text if g in post else "none")
+                v = r.ask_model(line)
+                st["verdict"], st["judge_line"] = v, line
+                if v.startswith("fail"):
+                    st["oracle"].append(("step", v))
+            for i in (got or []):
+                last[i] = (b, a)
+            r.rep.nontrivial(("timed-claim", w[3] == "0", w[4], bool(want), bool(got), "h" if r.handlers else "api"))
+            return st
+        st = r.step(op)
+        a = self.now()
+        if w[0] == "read" and st["impl"] and w[5] == "0":
+            for i in parse_ids(st["impl"].split(" ;; ")[0]) if re.match(r"^\d+-\d+", st["impl"]) else []:
+                last[i] = (b, a)
+        if w[0] == "pidle" and "idle" in st and st["idle"][0].isdigit():
+            i = parse_id(w[2])
+            lo = b - last.get(i, (0, 0))[1]
+            hi = a - last.get(i, (0, 0))[0]
+            for who, val in (("implementation", int(st["idle"][0])), ("model", int(st["idle"][1]))):
+                if not (lo - 10 <= val <= hi + 10):
+                    kind = "idle" if who == "implementation" else "idle-model"
+                    st["oracle"].append((kind, "XPENDING reports idle %d ms (%s) for %s; its last delivery/claim was %d..%d ms ago" % (val, who, w[2], lo, hi)))
+            r.rep.nontrivial(("pidle", int(st["idle"][0]) < T // 2, "h" if r.handlers else "api"))
+        return st
 
 
 # ------------------------------------------------------------------ classification against known findings
@@ -442,7 +585,7 @@ def main(tier, seed):
                 "Code model, and the Spec oracle is evaluated on the implementation's own dumps. 'clean' histories contain no operation that triggers a "
                 "listed finding and must pass every oracle. distinct = (operation, reply class, oracle verdict, profile) tuples reached")
     rep.assumptions = [
-        "idle times are not modelled: the XCLAIM idle test is the Boolean `elig` (min-idle 0 or FORCE => true, min-idle u64::MAX => false)",
+        "generated histories use only uniform idle tests (min-idle 0 or FORCE passes, u64::MAX fails; `claim_timed` proves the timed claim is then the Boolean one); a REAL threshold is exercised by the real-time layer (fixed timelines, thresholds 300-400 ms, outcomes judged only when the check's own clock leaves a margin of 50 ms / T/2), with `Code.claimT` given the check's clock",
         "StreamData::range_after (binary search) is modelled as a filter over the strictly sorted id list (the search itself is C15's subject)",
         "entry fields are not modelled (ids only); names are ASCII tokens; HashMap iteration order is canonicalised by sorting",
         "FORCE is specified as bypassing the idle test only (Redis' creation of missing PEL entries is outside the property text)",
@@ -469,10 +612,11 @@ def main(tier, seed):
     known_seen = {}          # shape -> (ops, idx, step)
     r = Rng(seed)
 
-    def account(ops, steps, profile):
+    def account(ops, steps, profile, timed=None):
         for i, s in enumerate(steps):
             if s["impl"] != s["code"]:
-                disagreements.append({"ops": ops[:i + 1], "op": s["op"], "impl": s["impl"], "code": s["code"]})
+                disagreements.append({"ops": ops if timed else ops[:i + 1], "op": s["op"], "impl": s["impl"], "code": s["code"], "timed": timed,
+                                      "steps": steps if timed else None})
                 break
         known, unexplained = first_failures(steps)
         for sh, (i, s) in known.items():
@@ -482,7 +626,7 @@ def main(tier, seed):
                 unexplained.append((i, s))
         if unexplained:
             i = min(u[0] for u in unexplained)
-            new_failures.append((ops, steps, i))
+            new_failures.append((ops, steps, i, timed))
         for s in steps:
             w = s["op"].split(" ")
             reply = (s["impl"] or "abort").split(" ;; ")[0]
@@ -507,6 +651,17 @@ def main(tier, seed):
             account(ops, run.run_history(ops), "corpus")
         for ops in list(CORPUS.values()) + EXTRA_CORPUS:
             account(ops, hrun.run_history(ops), "corpus-handlers")
+        # ---- real-time layer: a REAL min-idle threshold (both drivers in lockstep; 2 sleeps of T+150 ms per timeline)
+        indeterminate = 0
+        for T in ([300] if tier == "quick" else [300, 400, 350, 300]):
+            tl = timed_timeline(T)
+            tm = Timed([run, hrun], T)
+            res = tm.run(tl)
+            indeterminate += tm.indeterminate
+            account(tl, res[0], "timed", timed=T)
+            account(tl, res[1], "timed-handlers", timed=T)
+        rep.extra["timed_layer"] = {"thresholds_ms": [300] if tier == "quick" else [300, 400, 350, 300], "indeterminate_timelines": indeterminate,
+                                    "rule": "outcome judged only if the possible real idle time is >= T+50 ms (must pass) or <= T/2 (must be refused) by the check's own clock"}
         # ---- generated histories
         n_hist = 600 if tier == "quick" else 12000
         for h in range(n_hist):
@@ -544,9 +699,19 @@ def main(tier, seed):
         for sh, (ops, i, s) in known_seen.items():
             f = by_shape[sh]
             rep.known(f["id"], f["what"])
-        if new_failures:
+        if new_failures and new_failures[0][3] is None and any(t[3] for t in new_failures):
+            new_failures.sort(key=lambda t: (t[3] is not None, len(t[0])))
+        if new_failures and new_failures[0][3]:
+            # a real-time failure: the timeline is its own minimal replay (it cannot be shrunk without its sleeps)
+            ops, steps, idx, T = new_failures[0]
+            what = "; ".join("%s: %s" % kd for kd in steps[idx]["oracle"])
+            ro = replay_obj(ops, steps, idx, quirks)
+            ro["timed_T"] = T
+            rep.violation("C16 oracle fails on the implementation at `%s` (real-time layer, min-idle %d ms): %s" % (steps[idx]["op"], T, what),
+                          {"replay": ro, "lean_errors": errs[:5], "obligation": "Ferrous.C16.claim_resets_idle"})
+        elif new_failures:
             new_failures.sort(key=lambda t: len(t[0]))
-            ops, steps, idx = new_failures[0]
+            ops, steps, idx, _ = new_failures[0]
             ops = ops[:idx + 1]
 
             def still(steps2):
@@ -561,17 +726,18 @@ def main(tier, seed):
             what = "; ".join("%s: %s" % kd for kd in steps2[i]["oracle"]) if u else "oracle failure (not reproduced after shrinking)"
             rep.violation("C16 oracle fails on the implementation at `%s`: %s" % (small[i], what),
                           {"replay": replay_obj(small, steps2, i, quirks), "lean_errors": errs[:5],
-                           "other_failing_histories": [t[0][:t[2] + 1] for t in new_failures[1:4]]})
+                           "other_failing_histories": [t[0][:t[2] + 1] for t in new_failures[1:4] if not t[3]]})
         elif not ok:
             rep.violation("proof obligations of C16 no longer check", {"theorem_errors": errs[:10], "log_tail": log[-3000:]}, no_input=True)
         elif disagreements:
-            disagreements.sort(key=lambda d: len(d["ops"]))
+            disagreements.sort(key=lambda d: (d["timed"] is not None, len(d["ops"])))
             d = disagreements[0]
-            small = shrink_list(d["ops"], lambda cand: any(s["impl"] != s["code"] for s in run.run_history(cand)))
+            small = d["ops"] if d["timed"] else shrink_list(d["ops"], lambda cand: any(s["impl"] != s["code"] for s in run.run_history(cand)))
             rep.violation("correspondence Code (Lean model of consumer_groups.rs / read_group) vs implementation broke (%d histories) but the property oracles hold on everything explored"
                           % len(disagreements),
                           {"correspondence": "Ferrous.Grp.Code.gstep / St.* vs Stream + ConsumerGroup with verif_dump()", "tree_switches": quirks,
-                           "extraction_problems": problems, "replay": replay_obj(small, run.run_history(small), len(small) - 1, quirks)}, no_input=True)
+                           "extraction_problems": problems, "timed_T": d["timed"],
+                           "replay": replay_obj(small, d["steps"] if d["timed"] else run.run_history(small), len(small) - 1, quirks)}, no_input=True)
     finally:
         run.close()
         hrun.close()
@@ -594,7 +760,10 @@ def replay(path):
     by_shape = {f["match"]: f for f in findings}
     run = Runner(rep, quirks)
     try:
-        steps = run.run_history(ops)
+        if rp.get("timed_T"):
+            steps = Timed([run], rp["timed_T"]).run(ops)[0]
+        else:
+            steps = run.run_history(ops)
     finally:
         run.close()
     bad = False
